@@ -6,10 +6,11 @@ R-C21.2  every dunder of expr_checker.binary_table / unary_table that some Guppy
          implements exists on DunderMixin with the matching decorator
          (@binary_operation / @unary_operation); the mocked builtins int/float/len forward
          to the same-named dunder and the mock dict maps each name to the same-named mock.
-R-C21.3  the wrapper built by binary_operation is interpreted for a forward and a reflected dunder x {direct method succeeds,
-         raises a Guppy error, raises something else} x {partner method succeeds, raises}: direct method first with
-         (self, other); on failure the partner named by the table, called ON other WITH self; GuppyTypeError if both fail
-         (c21_reflected.py); the derived tables are keyed the right way.
+R-C21.3  end to end from the module's own code (c21_reflected.py): the module-level statements that build `binary_table` /
+         `reverse_binary_table` are interpreted on a model of the checker's operator table, then `binary_operation(f)` as a whole
+         for a forward and a reflected dunder x {direct method succeeds, raises a Guppy error, raises something else} x {partner
+         method succeeds, raises}: direct method first with (self, other); on failure the partner of the SAME operator, called
+         ON other WITH self (operands are traced objects of one class: `NotImplemented` is no way out); GuppyTypeError if both fail.
 Not decided: the results of tracing.
 """
 
@@ -164,27 +165,27 @@ def run(ctx: Ctx) -> None:
 
     # ---------------- R-C21.3 reflected fallback
     obj_mod = idx.module("guppylang_internals.tracing.object")
-    for tname, want_key, want_first in (("binary_table", "method", "reverse_method"), ("reverse_binary_table", "reverse_method", "method")):
-        v = idx.module_constant(obj_mod.name, tname)
-        key = f"{obj_mod.name}.{tname}#orientation"
-        if not isinstance(v, ast.DictComp) or len(v.generators) != 1:
-            ctx.undecided("R-C21.3", key, obj_mod.rel, "not a single-generator dict comprehension")
-            continue
-        g = v.generators[0]
-        tgt = [dotted(e) for e in g.target.elts] if isinstance(g.target, ast.Tuple) else []
-        src = ast.unparse(g.iter)
-        k = dotted(v.key)
-        first = dotted(v.value.elts[0]) if isinstance(v.value, ast.Tuple) and v.value.elts else ""
-        # positions: tuple of expr_checker.binary_table is (left, right, display)
-        pos = {nm: i for i, nm in enumerate(tgt)}
-        ok = (src.endswith("binary_table.values()") and len(tgt) == 3 and k in pos and first in pos
-              and ((tname == "binary_table" and pos[k] == 0 and pos[first] == 1)
-                   or (tname == "reverse_binary_table" and pos[k] == 1 and pos[first] == 0)))
-        ctx.check(ok, "R-C21.3", key, f"{obj_mod.rel}", {"key": k, "value_first": first, "unpack": tgt, "source": src},
-                  "the forward/reverse operator tables used by the comptime fallback are keyed the wrong way round")
     from . import c21_reflected
     if not c21_reflected.run(ctx):
-        # fallback: the wrapper's shape (table test, swapped reflected call, ordered forward call)
+        # fallback: the shape of the two derived tables and of the wrapper (table test, swapped reflected call, ordered forward call)
+        for tname, want_key, want_first in (("binary_table", "method", "reverse_method"), ("reverse_binary_table", "reverse_method", "method")):
+            v = idx.module_constant(obj_mod.name, tname)
+            key = f"{obj_mod.name}.{tname}#orientation"
+            if not isinstance(v, ast.DictComp) or len(v.generators) != 1:
+                ctx.undecided("R-C21.3", key, obj_mod.rel, "not a single-generator dict comprehension")
+                continue
+            g = v.generators[0]
+            tgt = [dotted(e) for e in g.target.elts] if isinstance(g.target, ast.Tuple) else []
+            src = ast.unparse(g.iter)
+            k = dotted(v.key)
+            first = dotted(v.value.elts[0]) if isinstance(v.value, ast.Tuple) and v.value.elts else ""
+            # positions: tuple of expr_checker.binary_table is (left, right, display)
+            pos = {nm: i for i, nm in enumerate(tgt)}
+            ok = (src.endswith("binary_table.values()") and len(tgt) == 3 and k in pos and first in pos
+                  and ((tname == "binary_table" and pos[k] == 0 and pos[first] == 1)
+                       or (tname == "reverse_binary_table" and pos[k] == 1 and pos[first] == 0)))
+            ctx.check(ok, "R-C21.3", key, f"{obj_mod.rel}", {"key": k, "value_first": first, "unpack": tgt, "source": src},
+                      "the forward/reverse operator tables used by the comptime fallback are keyed the wrong way round")
         bo = idx.find_func("binary_operation", obj_mod.name)
         wrapped = next((n for n in ast.walk(bo.node) if isinstance(n, ast.FunctionDef) and n is not bo.node), None)
         key = f"{bo.qualname}#reflected-fallback"
